@@ -280,6 +280,15 @@ def run(ctx, out):
     hand_dg = Graph().parse(data="""@prefix ex: <http://ex.test/> . ex:n0 a ex:C0 ; ex:p0 ex:n1, ex:n2 . ex:n1 a ex:C1, ex:C2 . ex:n2 a ex:C1 . ex:n3 a ex:C0 ; ex:p0 ex:n2 .""", format="turtle")
     for sel in (("both", [EX.n0], [EX.Thumb]), ("both", [EX.n3, EX.n0], [EX.Thumb, EX.Finger]), ("shapes", [], [EX.Thumb]), ("shapes", [], [EX.Hand])):
         plan.insert(0, (hand_sg, hand_dg, sel + (False,)))
+    # corpus: advanced mode, a selected shape refers to a shape that carries a sh:expression constraint (repaired defect: only the
+    # selected shapes were switched to advanced mode)
+    expr_sg = Graph().parse(data="""@prefix sh: <http://www.w3.org/ns/shacl#> . @prefix ex: <http://ex.test/> .
+        ex:ES a sh:NodeShape ; sh:targetClass ex:C0 ; sh:property [ sh:path ex:p0 ; sh:node ex:EN ] .
+        ex:EN a sh:NodeShape ; sh:expression [ sh:path ex:p1 ] .
+        ex:EO a sh:NodeShape ; sh:targetClass ex:C0 ; sh:nodeKind sh:BlankNode .""", format="turtle")
+    expr_dg = Graph().parse(data="""@prefix ex: <http://ex.test/> . ex:n0 a ex:C0 ; ex:p0 ex:n1, ex:n2 . ex:n1 ex:p1 true . ex:n2 ex:p1 false .""", format="turtle")
+    for sel in (("shapes", [], [EX.ES]), ("both", [EX.n0], [EX.ES]), ("focus", [EX.n0], [])):
+        plan.insert(0, (expr_sg, expr_dg, sel + (True,)))
     lines = []
     for k, (sg, dg, (mode, F, U, adv)) in enumerate(plan):
         lines.append(vcase.model_line("c%d" % k, sg, dg, {"advanced": adv}, focus=F, use_shapes=U))
